@@ -512,9 +512,9 @@ def gen_typed_vals(rng, tname, shared):
 def gen_rdata(rng, shared, tname=None):
     r = rng.below(20)
     if tname is None and r == 0:
-        return ("U", rng.choice([0, 10, 19, 99, 250, 4242, 65535]), rng.bytes(1 + rng.below(30)))
+        return ("U", rng.choice([0, 10, 19, 99, 250, 251, 252, 253, 254, 255, 256, 4242, 65280, 65535]), rng.bytes(1 + rng.below(30)))
     if tname is None and r == 1:
-        code = rng.choice(sorted(CODE2NAME) + [0, 10, 99, 65535])
+        code = rng.choice(sorted(CODE2NAME) + [0, 10, 99, 251, 252, 253, 254, 255, 256, 65535])
         if code == 41:
             code = 1
         return ("E", code)
